@@ -932,10 +932,16 @@ fn c17_static<T: HLabel>(ctx: &mut Ctx, case: &StaticCase, built: &Built<T>, rng
         for j in positions {
             ctx.eval();
             let h = monitor::new_handle();
+            // one position in three: the backend stays dead (every later call is undecided too)
+            let persistent = j % 3 == 0;
             {
                 let mut s = h.borrow_mut();
-                s.cap = Some(20_000);
-                s.inject_unknown_at = Some(j);
+                s.cap = Some(10 * k + 64);
+                if persistent {
+                    s.inject_unknown_from = Some(j);
+                } else {
+                    s.inject_unknown_at = Some(j);
+                }
             }
             let r = ask_fresh(built, t.ty, enc, monitor::monitored_factory(Backend::Cadical, h.clone()), &q);
             if !h.borrow().injected {
@@ -943,6 +949,19 @@ fn c17_static<T: HLabel>(ctx: &mut Ctx, case: &StaticCase, built: &Built<T>, rng
                 continue;
             }
             ctx.count(&format!("injected/in-process/{}", t.problem()));
+            if persistent {
+                ctx.count("injected/in-process-persistent");
+            }
+            if h.borrow().cap_hit {
+                // not aborted: the query went on calling the backend (10 k + 64 calls) after the failure
+                ctx.violation(
+                    &format!("C17/query-not-aborted-after-unknown/{}/{}", t.problem(), enc.name()),
+                    json!({"problem": t.problem(), "encoder": enc.name(), "query": q.to_json(), "fault_at_call": j, "persistent": persistent,
+                           "calls_without_fault": k, "calls_made": h.borrow().n_calls}),
+                    &json!({"sub": "static-unknown", "case": case.to_json()}),
+                );
+                return;
+            }
             if j >= 2 && k >= 2 {
                 let js = j.to_string();
                 let qs = format!("{:?}{}", q.args, q.cert);
